@@ -256,6 +256,16 @@ def variantSelOf (q : Query) (typeId : TypeId) : Sel → Outcome (Option Variant
 def aliasItem (name target : String) (boxed : Bool) : Item :=
   .alias name true (if boxed then .box (.path target) else .path target)
 
+/-- an aliased fragment rendered as a flattened member instead (`aliasItem _ f boxed`) -/
+def aliasMember (c : Ctx) : Item → Outcome (List RField)
+  | .alias _ _ (.path f) => do
+    let fld ← renderField c none (c.cs.snake f) f [.required] true false none
+    pure fld.toList
+  | .alias _ _ (.box (.path f)) => do
+    let fld ← renderField c none (c.cs.snake f) f [.required] true true none
+    pure fld.toList
+  | _ => pure []
+
 /-- final rendering of one expanded type (`ExpandedSelection::render`, one iteration) -/
 def renderType (c : Ctx) (name : String) (fields : List RField) (variants : List RVariant) : List Item :=
   if fields.isEmpty && !variants.isEmpty then
@@ -314,9 +324,12 @@ mutual
             -- every selection on this variant contributes to the same struct
             let r ← calcVariantSels c fuel sname pfx vt mine
             let _ := first
-            match r.2.2 with
-            | a :: _ => pure (v, a :: r.2.1)          -- an aliased type stops at the alias
-            | [] => pure (v, renderType c sname r.1 [] ++ r.2.1)
+            match r.1, r.2.2 with
+            | [], [a] => pure (v, a :: r.2.1)         -- nothing but one aliased fragment: a type alias
+            | fs, als => do
+              -- several contributions: every aliased fragment is one more flattened member
+              let extra ← als.mapM (aliasMember c)
+              pure (v, renderType c sname (fs ++ extra.flatten) [] ++ r.2.1)
       let (vs, items) ← calcVariants c fuel name pfx vsels rest
       pure (thisV :: vs, thisItems ++ items)
 
